@@ -873,6 +873,54 @@ var scenarioTable = map[string]func(s *sc){
 		s.flush(kinds("C"))
 		s.flush(any)
 	},
+	// C01 / C10 (the COMMITs of a view the node has left): n0 is Byzantine and leads view 0; it proposes X to n2 and n3.  n3 gets the
+	// PREPARE quorum (n0, n2, itself), is prepared and sends COMMIT(0, X); n2 does not see n3's PREPARE and stays unprepared.  n1 and n2
+	// time out; n1 is elected by n1, n2 and the Byzantine n0 (a quorum that legitimately leaves out the only lock holder n3) and proposes
+	// a fresh Y; n2 joins view 1, prepares Y (with n0's PREPARE) and sends COMMIT(1, Y).  Then the late COMMIT(0, X) of n3 and of n0
+	// reach n2: weight 2, no quorum - n2 must not decide X.  n1 completes the COMMIT(1, Y) quorum (n1, n2, n0) and decides Y.
+	"late_commits_of_a_left_view_reach_a_member_that_prepared_the_next_view": func(s *sc) {
+		s.startNodes()
+		x := s.adv.newBody(s.run, 1, false)
+		for _, i := range []int{2, 3} {
+			s.inject(i, s.adv.mkPP(ref(protocol.LEAN_HELIX_PREPREPARE, 1, 0, x), s.cl.ids[0], "", x), "pp_leader")
+		}
+		s.flush(func(p pending, k string) bool { return k == "P" && p.to == 3 }) // n2's PREPARE reaches n3: prepared, COMMIT(0, X) in the pool
+		s.dropAll(kinds("P"))
+		held := []pending{} // n3's COMMIT(0, X) is delayed
+		for _, p := range s.pool {
+			if kindOf(p.raw) == "C" && p.to == 2 {
+				held = append(held, p)
+			}
+		}
+		s.dropAll(kinds("C"))
+		s.timeout(1)
+		s.timeout(2)
+		s.flush(func(p pending, k string) bool { return k == "VC" && p.to == 1 })
+		s.inject(1, s.adv.mkVC(voteD{ht: protocol.LEAN_HELIX_VIEW_CHANGE, inst: clusterInstance, h: 1, v: 1, sender: s.cl.ids[0]}, nil), "vc_no_proof")
+		s.flush(func(p pending, k string) bool { return k == "NV" && p.to == 2 }) // n2 joins view 1 and sends PREPARE(1, Y)
+		var y *vBlock
+		for _, nv := range s.adv.nvSeen {
+			if vb, ok := nv.Block().(*vBlock); ok {
+				y = vb
+			}
+		}
+		if y == nil {
+			return
+		}
+		s.inject(2, s.adv.mkP(ref(protocol.LEAN_HELIX_PREPARE, 1, 1, y), s.cl.ids[0], ""), "p_byz_or_outsider") // n1 (leader) + n2 + n0: prepared, COMMIT(1, Y)
+		s.flush(func(p pending, k string) bool { return k == "P" && p.to == 1 })
+		s.inject(1, s.adv.mkP(ref(protocol.LEAN_HELIX_PREPARE, 1, 1, y), s.cl.ids[0], ""), "p_byz_or_outsider")
+		// the late COMMITs of view 0
+		for _, p := range held {
+			s.pool = append(s.pool, p)
+		}
+		s.flush(func(p pending, k string) bool { return k == "C" && p.to == 2 && p.from == "n3" })
+		s.inject(2, s.adv.mkC(ref(protocol.LEAN_HELIX_COMMIT, 1, 0, x), s.cl.ids[0], "", ""), "c_byz_or_outsider")
+		// view 1 completes at n1
+		s.flush(func(p pending, k string) bool { return k == "C" && p.to == 1 })
+		s.inject(1, s.adv.mkC(ref(protocol.LEAN_HELIX_COMMIT, 1, 1, y), s.cl.ids[0], "", ""), "c_byz_or_outsider")
+		s.flush(any)
+	},
 	// C03/C01: nobody is prepared in view 0 (the PREPAREs for B are lost; the adversary has seen them), but the next leader n1
 	// holds the proposal B.  Everybody times out.  The Byzantine member n3 votes first, with a GENUINE prepared proof for B but
 	// ANOTHER block X attached.  n1 must not count that vote (the block it would re-propose is not the certified one).  Then
@@ -1062,7 +1110,8 @@ func msgHeight(p pending) uint64 {
 func scenarioByz(name string) []int {
 	switch name {
 	case "vote_with_block_but_no_proof", "spliced_proof_for_rejected_block", "future_commit_signed_for_other_instance",
-		"equivocating_first_leader_commit_quorum_for_the_other_block", "lagging_node_with_conflicting_proposal_behind_commit_quorum_in_its_cache":
+		"equivocating_first_leader_commit_quorum_for_the_other_block", "lagging_node_with_conflicting_proposal_behind_commit_quorum_in_its_cache",
+		"late_commits_of_a_left_view_reach_a_member_that_prepared_the_next_view":
 		return []int{0}
 	case "lagging_node_drains_cached_height", "new_view_reaches_member_that_has_not_timed_out", "new_view_two_views_ahead_reaches_member_in_view_0":
 		return nil
